@@ -131,7 +131,9 @@ func (g *tmplGen) valid(depth int) string {
 			sb.WriteString("{{/* a comment */}}{{- " + g.ref() + " -}}")
 		case 10:
 			name := []string{"T", "hdr", "row", "cell"}[g.rng.IntN(4)] + fmt.Sprint(len(g.defs))
-			g.defs = append(g.defs, "{{define \""+name+"\"}}["+g.lit()+"{{.}}]{{end}}")
+			if g.rng.IntN(5) > 0 { // sometimes only reference the name: it must then be undefined, whatever earlier templates defined
+				g.defs = append(g.defs, "{{define \""+name+"\"}}["+g.lit()+"{{.}}"+fmt.Sprint(g.rng.IntN(1000))+"]{{end}}")
+			}
 			sb.WriteString("{{template \"" + name + "\" " + g.strExpr(1) + "}}")
 		case 11:
 			name := "blk" + fmt.Sprint(g.rng.IntN(1000))
@@ -231,7 +233,28 @@ func tmplCase(rep lib.Report, vec, lang, text string) Case {
 }
 
 type c19stats struct {
-	ok, parseFail, execFail, partialBeforeFail atomic.Int64
+	ok, parseFail, execFail, partialBeforeFail, held, reexported atomic.Int64
+}
+
+// heldReader is a reader returned by an earlier successful export that has not been drained yet.
+type heldReader struct {
+	rd   io.Reader
+	want string
+	c    Case
+}
+
+// checkHeld drains a held reader after later exports have run: its content must still be the text of its own export.
+func checkHeld(w *W, st *c19stats, h *heldReader) {
+	if h == nil || h.rd == nil {
+		return
+	}
+	w.Eval(1)
+	st.held.Add(1)
+	got, _ := lib.Drain(h.rd)
+	if got != h.want {
+		h.c.Args["held_reader"] = "drained after later exports"
+		w.Violate(Violation{Monitor: "C19", Check: "the reader returned by an export keeps yielding that export's text, whatever is exported afterwards", Case: h.c, Observed: clip(got, 300), Expected: clip(h.want, 300)})
+	}
 }
 
 // checkExport compares ExportWithString with the oracle.
@@ -433,6 +456,11 @@ func runC19(r *Run) int {
 				reps[l][li] = rep
 			}
 		}
+		var ring []struct {
+			l    int
+			text string
+		}
+		var held *heldReader
 		for k := 0; k < 20; k++ {
 			g := &tmplGen{rng: rng}
 			for l := 0; l < 3; l++ {
@@ -447,6 +475,34 @@ func runC19(r *Run) int {
 				for li, lang := range langs {
 					checkExport(w, st, reps[l][li], vec, lang, text)
 				}
+				// hold the reader of a successful export undrained across the following exports
+				if want, werr := oracleTemplate(reps[l][0].Ptr(), text); werr == nil && held == nil && rng.IntN(3) == 0 {
+					if rd, err, pan := reps[l][0].ExportRaw(text); err == nil && pan == nil && rd != nil {
+						held = &heldReader{rd: rd, want: want, c: tmplCase(reps[l][0], vec, "en", text)}
+					}
+				} else if held != nil && rng.IntN(2) == 0 {
+					checkHeld(w, st, held)
+					held = nil
+				}
+				// re-export an earlier template of this process (definitions of later templates must not leak into it)
+				if len(ring) > 0 && rng.IntN(2) == 0 {
+					e := ring[rng.IntN(len(ring))]
+					st.reexported.Add(1)
+					checkExport(w, st, reps[e.l][rng.IntN(2)], vec, "en/ja", e.text)
+				}
+				if strings.Contains(text, "{{define") || strings.Contains(text, "{{block") || strings.Contains(text, "{{template") {
+					if len(ring) < 12 {
+						ring = append(ring, struct {
+							l    int
+							text string
+						}{l, text})
+					} else {
+						ring[rng.IntN(len(ring))] = struct {
+							l    int
+							text string
+						}{l, text}
+					}
+				}
 				if k == 0 {
 					checkReaders(w, reps[l][rng.IntN(2)], vec, "en/ja", text, rng)
 				}
@@ -456,6 +512,7 @@ func runC19(r *Run) int {
 				}
 			}
 		}
+		checkHeld(w, st, held)
 		if blk%50 == 0 {
 			for l := 0; l < 3; l++ {
 				checkNilCases(w, reps[l][0], vec, "en")
@@ -469,11 +526,12 @@ func runC19(r *Run) int {
 			}
 		}
 	})
-	r.Extra("templates", map[string]int64{"rendered_identically": st.ok.Load(), "failed_to_parse_(both)": st.parseFail.Load(), "failed_to_execute_(both)": st.execFail.Load()})
+	r.Extra("templates", map[string]int64{"rendered_identically": st.ok.Load(), "failed_to_parse_(both)": st.parseFail.Load(), "failed_to_execute_(both)": st.execFail.Load(),
+		"readers_held_undrained_across_later_exports": st.held.Load(), "earlier_templates_re-exported_after_others": st.reexported.Load()})
 	if r.Counter("valid_vector_not_decoded") > 0 || r.Counter("report_construction_panicked") > 0 {
 		r.Inconclusive("%d vectors not decoded / %d report constructions panicked", r.Counter("valid_vector_not_decoded"), r.Counter("report_construction_panicked"))
 	}
-	return r.Finish("seeded template grammar (literal text incl. multi-byte/NUL/braces, field references of the report level incl. embedded and promoted paths, pipelines with printf/print/html/js/urlquery/len/index/slice/eq/ne/lt/and/or/not, if/else/with/range/define/template/block, variables, comments, trim markers; a third invalid: unbalanced actions, unknown fields/functions, type errors striking after output, missing template targets, unterminated strings/comments/actions, runaway recursion) x reports of the three levels x {English, Japanese}; oracle = text/template of the same toolchain on the same template and report: both fail or both succeed, identical bytes on success, invalid-template sentinel and nil reader on failure; reader path: strings.Reader, bytes.Buffer, one-byte/half/chunk/stutter/(n>0,EOF) readers must equal ExportWithString; readers failing after k bytes, nil reader, nil reports; distinct non-trivial = distinct template texts (hash bitmap, conservative)",
+	return r.Finish("seeded template grammar (literal text incl. multi-byte/NUL/braces, field references of the report level incl. embedded and promoted paths, pipelines with printf/print/html/js/urlquery/len/index/slice/eq/ne/lt/and/or/not, if/else/with/range/define/template/block, variables, comments, trim markers; a third invalid: unbalanced actions, unknown fields/functions, type errors striking after output, missing template targets, unterminated strings/comments/actions, runaway recursion) x reports of the three levels x {English, Japanese}; oracle = text/template of the same toolchain on the same template and report: both fail or both succeed, identical bytes on success, invalid-template sentinel and nil reader on failure; reader path: strings.Reader, bytes.Buffer, one-byte/half/chunk/stutter/(n>0,EOF) readers must equal ExportWithString; readers failing after k bytes, nil reader, nil reports; readers of successful exports held undrained across later exports; earlier templates (with define/block/template) re-exported after others; distinct non-trivial = distinct template texts (hash bitmap, conservative)",
 		false, distinct.count(), int64(nT), int64(nT/2), TrustedBase)
 }
 
